@@ -586,8 +586,13 @@ pub fn triage<W: World>(
     let mut per_class: BTreeMap<String, usize> = BTreeMap::new();
 
     for (i, failures, case_v) in &res.fails {
+        let mut seen_here: BTreeSet<String> = BTreeSet::new();
         for f in failures {
             if f.prop != prop {
+                continue;
+            }
+            // one report per (run, clause class): they would share a replay path
+            if !seen_here.insert(f.class()) {
                 continue;
             }
             let n = per_class.entry(f.class()).or_insert(0);
